@@ -58,6 +58,24 @@ def anchors(prop):
 
 
 _scope_cache = {}
+EXTRA_OWNERS = {
+    "C01": ("Network._init_morph_jaxley_spsolve", "Network._init_morph_jax_spsolve", "merge_cells", "remap_to_consecutive"),
+    "C07": ("nested_checkpoint_scan", "_inner_nested_scan", "build_init_and_step_fn"),
+    "C06": ("build_init_and_step_fn",),
+    "C02": ("Network._init_morph_jaxley_spsolve", "Cell._init_morph_jaxley_spsolve", "remap_index_to_masked", "merge_cells",
+            "step_voltage_implicit_with_jaxley_spsolve", "step_voltage_implicit_with_jax_spsolve"),
+    "C12": ("merge_cells", "remap_to_consecutive", "compute_children_and_parents", "Network._init_morph_jaxley_spsolve",
+            "Network._init_morph_jax_spsolve"),
+    "C15": ("step_voltage_implicit_with_jaxley_spsolve", "step_voltage_implicit_with_jax_spsolve", "Module.get_all_parameters"),
+    "C11": ("Module._external_input",),
+    "C19": ("Module._external_input", "Module.delete_clamps", "Module.set_ncomp"),
+    "C13": ("Module._iter_submodules",),
+    "C20": ("Network._init_morph_jax_spsolve", "Network._append_multiple_synapses"),
+    "C09": ("Module.data_set",),
+    "C05": ("Module._step_channels_state", "Module._channel_currents", "Module.get_all_parameters"),
+    "C03": ("solve_gate_exponential", "exponential_euler", "solve_inf_gate_exponential"),
+    "C14": ("solve_gate_exponential", "exponential_euler", "solve_inf_gate_exponential"),
+}
 
 
 def _callgraph(repo):
@@ -176,6 +194,12 @@ def scope(repo, prop):
         _scope_cache["owners"] = own
     own = _scope_cache["owners"]
     seen = {k for k in seen if k not in own or prop in own[k]}
+    # functions another property anchors by name, but whose rules this property shares (see DESIGN 9.2): co-owned
+    extra = EXTRA_OWNERS.get(prop, ())
+    if extra:
+        for f in repo.all_functions():
+            if f.qual in extra or f.name in extra:
+                seen.add((f.file, f.qual))
     _scope_cache[prop] = (seen, ents, unresolved)
     return _scope_cache[prop]
 
@@ -214,6 +238,25 @@ def dead_parameters(repo, col, prop):
                 and not any(isinstance(x, ast.Name) for x in ast.walk(body[0].value)):
             continue  # trivial default implementation (`return {}`)
         used = {x.id for x in ast.walk(fi.node) if isinstance(x, ast.Name) and isinstance(x.ctx, ast.Load)}
+        # functions defined inside (scan bodies, block functions, helpers): a parameter they never read
+        for inner in ast.walk(fi.node):
+            if isinstance(inner, ast.FunctionDef) and inner is not fi.node and inner.name not in INTERFACE_METHODS:
+                ia = inner.args
+                ips = [x.arg for x in ia.posonlyargs + ia.args + ia.kwonlyargs if x.arg not in ("self", "cls", "_")]
+                iused = {x.id for x in ast.walk(inner) if isinstance(x, ast.Name) and isinstance(x.ctx, ast.Load)}
+                ibody = [s_ for s_ in inner.body if not (isinstance(s_, ast.Expr) and isinstance(s_.value, ast.Constant))]
+                if len(ibody) == 1 and isinstance(ibody[0], (ast.Raise, ast.Pass)):
+                    continue
+                for p in ips:
+                    n += 1
+                    if p in iused or p.startswith("_"):
+                        continue
+                    why = UNUSED_OK.get((fi.qual + "." + inner.name, p))
+                    col.add(R, fi, f"parameter `{p}` of the local function {fi.qual}.{inner.name} takes effect", "DISCHARGED" if why else "VIOLATED",
+                            f"unused by design: {why}" if why else
+                            f"the local function `{inner.name}` accepts `{p}` but never reads it (it uses a variable of the enclosing function "
+                            f"instead): e.g. a scan block that ignores the carry it receives restarts every block from the initial state",
+                            node=inner)
         for p in ps:
             n += 1
             if p in used:
@@ -358,6 +401,128 @@ def must_calls(repo, col, prop):
     col.rule(R, "invariant-restoring calls happen on every normal path (must-pass-through)", len(rows))
 
 
+NOT_FORWARDED_OK = {
+    ("read_swc", "Branch.__init__", "ncomp"): "a branch is built from an explicit list of ncomp compartments (documented alternative to passing ncomp)",
+    ("read_swc", "Branch.__init__", "nseg"): "deprecated alias of ncomp",
+    ("Branch._init_morph_jax_spsolve", "comp_edges_to_indices", "n_nodes"): "n_nodes is the value RETURNED by this call (assigned afterwards); a lone branch has no edge-less cells",
+    ("Cell._init_morph_jax_spsolve", "comp_edges_to_indices", "n_nodes"): "n_nodes is the value returned by this call",
+    ("Compartment._init_morph_jax_spsolve", "comp_edges_to_indices", "n_nodes"): "n_nodes is the value returned by this call",
+    # optional parameters whose name is also an attribute of the calling object
+    ("Module._at_nodes", "View.__init__", "edges"): "a node selection restricts the nodes only; the edges follow from them",
+    ("Module._at_edges", "View.__init__", "nodes"): "an edge selection restricts the edges only; the nodes follow from them",
+    ("Branch._init_morph_jaxley_spsolve", "JaxleySolveIndexer.__init__", "ncomp_per_branch"): "a single branch is never padded: the fallback np.diff(cumsum_ncomp) is exact",
+    ("Compartment._init_morph_jaxley_spsolve", "JaxleySolveIndexer.__init__", "ncomp_per_branch"): "a single compartment is never padded",
+    ("Cell.__init__", "Branch.__init__", "ncomp"): "default branch of a cell built without branches",
+}
+
+
+_attr_cache = {}
+
+
+def _self_attrs(repo, cname):
+    """names assigned as attributes of self anywhere in the class and its bases"""
+    if cname in _attr_cache:
+        return _attr_cache[cname]
+    out = set()
+    for b in repo.mro(cname):
+        for m in b.methods.values():
+            for n in ast.walk(m.node):
+                tg = n.targets if isinstance(n, ast.Assign) else ([n.target] if isinstance(n, (ast.AugAssign, ast.AnnAssign)) else [])
+                for t in tg:
+                    for x in ast.walk(t):
+                        if isinstance(x, ast.Attribute) and isinstance(x.value, ast.Name) and x.value.id == "self":
+                            out.add(x.attr)
+    _attr_cache[cname] = out
+    return out
+
+
+def not_forwarded(repo, col, prop):
+    """A call that omits an OPTIONAL parameter of a repository function although the caller holds a value of exactly that
+    name (its own parameter or a local): the callee silently falls back to its default (`step_fn(...)` without the
+    requested `delta_t`, an indexer built without `ncomp_per_branch`).  Five such sites exist on the pinned tree; each was
+    read and is listed with its reason."""
+    from sa.core import FuncInfo
+    R = f"R-{prop}-forward"
+    sc, ents, _ = scope(repo, prop)
+    byname = {}
+    for f in repo.all_functions():
+        byname.setdefault(f.name, []).append(f)
+
+    def callees(c, fi):
+        f = c.func
+        if isinstance(f, ast.Name):
+            r = repo.resolve_name(repo.mods[fi.file], f.id)
+            if isinstance(r, FuncInfo):
+                return [(r, False)]
+            if r is not None and hasattr(r, "methods"):
+                for b in repo.mro(r.name):
+                    if "__init__" in b.methods:
+                        return [(b.methods["__init__"], True)]
+            for n_ in ast.walk(fi.node):
+                if isinstance(n_, ast.FunctionDef) and n_.name == f.id and n_ is not fi.node:
+                    return [(FuncInfo(n_.name, fi.qual + ".<locals>." + n_.name, fi.file, n_, cls=None, parent=fi), False)]
+            # a function VALUE obtained by unpacking the result of a repository function that returns local functions:
+            #   init_fn, step_fn = build_init_and_step_fn(...)
+            for n_ in ast.walk(fi.node):
+                if isinstance(n_, ast.Assign) and isinstance(n_.targets[0], ast.Tuple) and isinstance(n_.value, ast.Call) and \
+                        isinstance(n_.value.func, ast.Name):
+                    pos = [i for i, t in enumerate(n_.targets[0].elts) if isinstance(t, ast.Name) and t.id == f.id]
+                    fac = repo.resolve_name(repo.mods[fi.file], n_.value.func.id)
+                    if pos and isinstance(fac, FuncInfo):
+                        for r_ in ast.walk(fac.node):
+                            if isinstance(r_, ast.Return) and isinstance(r_.value, ast.Tuple) and pos[0] < len(r_.value.elts) and \
+                                    isinstance(r_.value.elts[pos[0]], ast.Name):
+                                nm = r_.value.elts[pos[0]].id
+                                for d_ in ast.walk(fac.node):
+                                    if isinstance(d_, ast.FunctionDef) and d_.name == nm and d_ is not fac.node:
+                                        return [(FuncInfo(nm, fac.qual + ".<locals>." + nm, fac.file, d_, cls=None, parent=fac), False)]
+        if isinstance(f, ast.Attribute) and ast.unparse(f.value) in ("self", "self.base", "module", "super()", "view", "net", "cell"):
+            c2 = byname.get(f.attr, [])
+            if c2 and all(x.cls for x in c2):
+                return [(c2[0], True)]
+        return []
+
+    n = 0
+    for fi in repo.all_functions():
+        if (fi.file, fi.qual) not in sc or fi.file in SKIP_FILES:
+            continue
+        held = set(fi.params) | {x.arg for x in fi.node.args.kwonlyargs}
+        for node in ast.walk(fi.node):
+            if isinstance(node, ast.Assign):
+                for t in node.targets:
+                    for x in ast.walk(t):
+                        if isinstance(x, ast.Name):
+                            held.add(x.id)
+        if fi.cls:
+            # `nodes` / `edges` are the tables every module has; selection helpers take them as optional row filters
+            held_attr = _self_attrs(repo, fi.cls) - {"nodes", "edges"}
+        else:
+            held_attr = set()
+        for c in ast.walk(fi.node):
+            if not isinstance(c, ast.Call) or any(isinstance(a, ast.Starred) for a in c.args) or any(k.arg is None for k in c.keywords):
+                continue
+            for g, is_method in callees(c, fi):
+                a = g.node.args
+                names = [x.arg for x in a.posonlyargs + a.args]
+                if names and names[0] in ("self", "cls") and is_method:
+                    names = names[1:]
+                nd = len(a.defaults)
+                with_def = set(names[len(names) - nd:]) if nd else set()
+                with_def |= {k.arg for k, d in zip(a.kwonlyargs, a.kw_defaults) if d is not None}
+                passed = set(names[:len(c.args)]) | {k.arg for k in c.keywords}
+                for p in sorted(with_def):
+                    if p in passed or (p not in held and p not in held_attr):
+                        continue
+                    n += 1
+                    why = NOT_FORWARDED_OK.get((fi.qual, g.qual, p))
+                    col.add(R, fi, f"{fi.qual} -> {g.qual}: `{p}` held by the caller is passed on", "DISCHARGED" if why else "VIOLATED",
+                            f"omitted by design: {why}" if why else
+                            f"`{ast.unparse(c)[:70]}` does not pass `{p}` although {fi.qual} holds a value of that name: {g.qual} falls back to "
+                            f"its default for `{p}` (the requested value is silently ignored)", node=c)
+    col.rule(R, "a value the caller holds under the name of an optional parameter of the callee is passed on", 0)
+    col.info["calls_omitting_a_held_optional_argument"] = n
+
+
 def run_all(prop, repo, col, tier):
     mod = importlib.import_module(f"rules.{prop.lower()}")
     pending = None
@@ -368,5 +533,6 @@ def run_all(prop, repo, col, tier):
     dead_parameters(repo, col, prop)
     early_exits(repo, col, prop)
     must_calls(repo, col, prop)
+    not_forwarded(repo, col, prop)
     if pending is not None:
         raise pending
